@@ -126,13 +126,13 @@ pub struct Local {
     pub replay: bool,
     pub seed: u64,
     pub tier: Tier,
-    cur_space: String,
-    cur_idx: u64,
+    pub cur_space: String,
+    pub cur_idx: u64,
     bitmap: Arc<Bitmap>,
 }
 
 impl Local {
-    fn new(bitmap: Arc<Bitmap>, seed: u64, tier: Tier, replay: bool) -> Self {
+    pub fn new(bitmap: Arc<Bitmap>, seed: u64, tier: Tier, replay: bool) -> Self {
         Local {
             evals: 0,
             states: 0,
@@ -224,7 +224,7 @@ impl Local {
         let d = format!("panicked at {}: {}", pi.loc, pi.msg);
         self.violation(key, case, || d);
     }
-    fn merge_from(&mut self, o: Local) {
+    pub fn merge_from(&mut self, o: Local) {
         self.evals += o.evals;
         self.states += o.states;
         self.transitions += o.transitions;
